@@ -35,7 +35,7 @@ PROPS["C08"] = {
             "owning operation on a buffer that was attached; distinct = distinct case text (64-bit hash).",
     "assumptions": ["model ownership is a lower bound (owning only when the operation must have allocated)",
                     "ASan + UBSan white-list catch out-of-range accesses; attach windows are disjoint between live buffers"],
-    "parts": [opf("buffer", ["harness/c08_buffer.cpp"], {"cases": 400000, "maxsize": 40}, {"cases": 1500000, "maxsize": 120, "workers": 16})],
+    "parts": [opf("buffer", ["harness/c08_buffer.cpp"], {"cases": 400000, "maxsize": 40}, {"cases": 12000000, "maxsize": 160, "workers": 16})],
 }
 
 
@@ -138,7 +138,7 @@ PROPS["C06"] = {
     "rule": "opfuzz: histories of 2..size ops from 32 operation kinds (constructors, copy, assign, attach, append/prepend (String incl. itself, pointer+length, char), +=, +, clear, resize, reserve, detach, replace(char), replace(String,String), case mapping, trim, substr, token(char/set) to exhaustion, split into List and HashSet, join, printf/fromPrintf across the 200 byte first buffer, C-string view, 20 query functions). "
             "Non-trivial = some variable was mutated while it shared its buffer with another variable AND (a mutation of an unterminated attached string OR an operation whose argument is the receiver itself); distinct by case text hash.",
     "assumptions": ["String::attach(p,n) requires p[n] to be readable (all callers attach to windows of NUL-terminated text)", "C-string semantics only for NUL-free strings", "needles of replace/find are non-empty"],
-    "parts": [opf("string", ["harness/c06_string.cpp"], {"cases": 1200000, "maxsize": 40}, {"cases": 2000000, "maxsize": 120, "workers": 16})],
+    "parts": [opf("string", ["harness/c06_string.cpp"], {"cases": 1200000, "maxsize": 40}, {"cases": 8000000, "maxsize": 120, "workers": 16})],
 }
 
 
@@ -150,7 +150,7 @@ PROPS["C07"] = {
     "rule": "opfuzz: histories of 2..size ops from 24 kinds (scalar assignments through operator= and constructors with boundary values, strings incl. decimal texts up to 2^64-1, assignment from an element nested in another or the same variable, list/array/map construction from other variables, assign incl. self, copy, clear, swap, mutable accessors followed by a modification incl. type-converting accesses and two-level nested modifications). "
             "Non-trivial = a mutable access on a variable whose payload was shared with another variable at that moment AND some value reached nesting depth >=2 (container inside container); distinct by case text hash.",
     "assumptions": ["equality is checked between a variable and its copies (fresh ones, and ones detached from the shared payload by an unmodifying mutable access), not between independently built equal values", "double values other than NaN", "no self-containment"],
-    "parts": [opf("variant", ["harness/c07_variant.cpp"], {"cases": 600000, "maxsize": 30}, {"cases": 2000000, "maxsize": 80, "workers": 16})],
+    "parts": [opf("variant", ["harness/c07_variant.cpp"], {"cases": 600000, "maxsize": 30}, {"cases": 6000000, "maxsize": 80, "workers": 16})],
 }
 
 
@@ -162,7 +162,7 @@ PROPS["C12"] = {
     "rule": "opfuzz: 3..size top-level ops and 0..size reactions per case over 3 emitters x 10 signals (no argument, one int, a second no-argument signal that shares the slot functions of the first, and 2..8 ints: one signal per emit() overload) and 4 listeners with two slots per signature; a connection may exist up to three times, concentrated on one signal, or on the two sharing signals, so that slot chains get long. Oracle: each invocation must be the next connected record of the innermost running emission (connected before the outermost running emission of that signal began, still connected at its turn), no call on a destroyed listener or from a destroyed emitter, no connected record left uninvoked when an emission ends, probe emissions match, teardown in generated order is clean (ASan, ledger). "
             "Non-trivial = (a reaction changed the connection set of the signal being emitted AND three emissions were nested) OR an emitter/listener was destroyed inside a slot; distinct by case text hash.",
     "assumptions": ["no duplicate live connections", "an object that is both emitter and listener is not generated"],
-    "parts": [opf("callback", ["harness/c12_callback.cpp"], {"cases": 1500000, "maxsize": 30}, {"cases": 3000000, "maxsize": 80, "workers": 16})],
+    "parts": [opf("callback", ["harness/c12_callback.cpp"], {"cases": 1500000, "maxsize": 30}, {"cases": 20000000, "maxsize": 80, "workers": 16})],
 }
 
 
@@ -222,7 +222,7 @@ PROPS["C18"] = {
     "rule": "harness/c18_codec.cpp enumerates, oracle c18.py judges (decoder inputs in exactly sized blocks, the empty range at the very end of a block; every number also converted through a String attached to an exactly sized, unterminated block in which a digit follows). Non-trivial = multi-byte code points, byte strings with a multi-byte lead byte (incl. truncated tails), integers of >=10 digits, padded base64 encodings, base64 inputs with bytes >=0x80; counted per record.",
     "assumptions": ["surrogate code points encode as generalised UTF-8", "over-long UTF-8 forms are not rejected by isValid (the statement does not ask for it)"],
     "parts": [{"name": "codec", "kind": "custom", "module": "c18", "tiers": {"quick": {}, "thorough": {}}},
-              lfz("fuzz", ["harness/c18_fuzz.cpp"], {"runs": 200000, "workers": 4, "time": 60}, {"runs": 3000000, "workers": 16, "time": 600}, max_len=256)],
+              lfz("fuzz", ["harness/c18_fuzz.cpp"], {"runs": 200000, "workers": 4, "time": 60}, {"runs": 30000000, "workers": 16, "time": 600}, max_len=256)],
 }
 
 
@@ -281,8 +281,8 @@ PROPS["C13"] = {
     "rule": "case = optional small kernel send buffer, a fault script of 0..2*size entries (shapes: mixture, would-block phase then full, 1-byte partials, alternating, large partials), 3..size actions (write, suspend, resume, peer reads/writes, queries, leaving run(), and arming the next onWrite / onRead callback of a client to perform a write itself). Oracle: bytes handed to the kernel are a prefix of the accepted stream and the peer finally receives exactly the accepted bytes in order; 'postponed' and getSendBufferSize() equal accepted minus handed; onWrite exactly once per drain and never with backlog; no onRead between suspend() and resume(); ASan. "
             "Non-trivial = a partial send or would-block left a backlog, a further write happened while the backlog was non-empty, and the backlog drained (onWrite); distinct by case text hash.",
     "assumptions": ["Client::write gets size >= 1", "the peer of a pair()ed client is a local stream socket"],
-    "parts": [opf("server", ["harness/c13_server.cpp"], {"cases": 250000, "maxsize": 40}, {"cases": 300000, "maxsize": 80, "workers": 16}, ldflags=SRV_WRAPS, deps=["harness/srv_common.hpp"]),
-              rel(opf("server", ["harness/c13_server.cpp"], {"cases": 250000, "maxsize": 40}, {"cases": 300000, "maxsize": 80, "workers": 16}, ldflags=SRV_WRAPS, deps=["harness/srv_common.hpp"], bin="C13_server"))],
+    "parts": [opf("server", ["harness/c13_server.cpp"], {"cases": 250000, "maxsize": 40}, {"cases": 5000000, "maxsize": 100, "workers": 16}, ldflags=SRV_WRAPS, deps=["harness/srv_common.hpp"]),
+              rel(opf("server", ["harness/c13_server.cpp"], {"cases": 250000, "maxsize": 40}, {"cases": 5000000, "maxsize": 100, "workers": 16}, ldflags=SRV_WRAPS, deps=["harness/srv_common.hpp"], bin="C13_server"))],
 }
 
 
